@@ -58,6 +58,9 @@ fn main() {
             "total" => vh::total::replay(&case, &mut rep),
             "codec" => vh::codec::replay(case.get("bytes").and_then(|b| b.as_str()).unwrap_or(""), &mut rep),
             "vm-bytes" => vh::codec::replay(case.get("bytes").and_then(|b| b.as_str()).unwrap_or(""), &mut rep),
+            "formats" => vh::formats::replay(&case, &mut rep),
+            "sign" => vh::signeng::replay(&case, &mut rep),
+            "limits" => vh::limits::replay(&case, &mut rep),
             other => {
                 eprintln!("no replay for engine {other}");
                 std::process::exit(2);
@@ -66,8 +69,11 @@ fn main() {
         for v in &rep.violations {
             println!("REPLAY-VIOLATION property={} kind={} {}", v.property, v.kind, v.detail);
         }
+        for r in &rep.inconclusive {
+            println!("REPLAY-INCONCLUSIVE {r}");
+        }
         println!("replay: {} violation(s)", rep.violations.len());
-        std::process::exit(if rep.violations.is_empty() { 0 } else { 1 });
+        std::process::exit(if !rep.violations.is_empty() { 1 } else if !rep.inconclusive.is_empty() { 2 } else { 0 });
     }
     let mut a = Args {
         engine: argv[0].clone(),
